@@ -1,7 +1,8 @@
 (** C04 — property theorems (statements only; proofs by [exact]). *)
 From Coq Require Import ZArith List.
 Import ListNotations.
-From RlibV Require Import C04.Model C04.ProofsBasic C04.ProofsState C04.ProofsHist.
+From RlibV Require Import C04.Model C04.ProofsBasic C04.ProofsState C04.ProofsHist C04.AlgRing C04.AlgDFT
+  C04.ProofsTable C04.ProofsLevels C04.ProofsMain.
 
 (** Shape, for every scalar type, every oracle and every object state (so also for binary64):
     an empty operand gives the empty product and leaves the object untouched; the product has
@@ -45,3 +46,42 @@ Theorem c04_reach_closed : forall (F : Type) (ops : Ops F) (tw : nat -> nat -> F
   (forall v n dest, (n = 0 \/ exists m, n = 2 ^ m) -> reach ops tw (fst (fft_into ops tw s v n dest))) /\
   (forall (v : list (F * F)) m dest, length v = 2 ^ m -> reach ops tw (fst (fft_inv_into ops tw s v dest))).
 Proof. exact reach_closed_all. Qed.
+
+(** Exactness over a lawful scalar ring.  Hypotheses: [Lawful ops inr] — the scalars form a commutative
+    ring, [of_Z] is the ring morphism from Z, 2 is invertible, division by 2^k is exact, and the rounding
+    step recovers every integer in [inr] ([to_int (of_Z z) = z]); and, for every table size N = 2^k the
+    object can reach (2 <= k <= Kmax), the table hypotheses [table_ok]: w[0] = 1,
+    w[a] * w[b] = w[(a+b) mod N], w[N/2] = -1, w[N/4] = i, conj w[a] = w[N-a]
+    (w = the table update_n builds from the oracle; [root K m false] = w_K[2^(K-m)], the principal
+    2^m-th root read off the table of an object of size 2^K, [root K m true] its inverse).
+    Then, for every reachable object state of size <= 2^Kmax:
+    (1) fft_internal computes the discrete Fourier transform (forward), resp. the inverse transform
+        scaled by 1/n;
+    (2) the inverse transform undoes the forward transform, whatever reachable states the two calls use;
+    (3) multiply returns exactly the integer convolution (negative coefficients included) whenever the
+        coefficients of the product lie in [inr];
+    (4) fft(a, n), fft(b, n), pointwise product, fft_inv_into add exactly the convolution, padded with
+        zeros to n, to the destination (n = 2^(j+1) >= |a|+|b|-1; the special case n = 1 of fft_inv_into
+        is not covered by this clause).
+    multiply_into is covered through [c04_shape] (it adds what multiply returns).
+    NOT proved (c04_rounding_partial, no theorem): that binary64 rounding keeps the error below 1/2
+    inside the published envelope; that part is examined by search only (checks/c04.py, [extra]). *)
+Theorem c04_exact_algebra : forall (F : Type) (ops : Ops F) (inr : Z -> Prop) (tw : nat -> nat -> F * F) (Kmax : nat),
+  Lawful ops inr -> (forall k, 2 <= k <= Kmax -> table_ok ops tw k) ->
+  forall s : st (F := F), reach ops tw s -> length (R s) <= 2 ^ Kmax ->
+  (forall m (v : list (F * F)) k, m <= Kmax -> length v = 2 ^ m -> k < 2 ^ m ->
+     nth k (snd (fft_internal ops tw s v false)) (czero ops) =
+       dft ops (2 ^ m) (root ops tw (Nat.max (Nat.log2 (length (R s))) m) m false) (vec ops v) k /\
+     nth k (snd (fft_internal ops tw s v true)) (czero ops) =
+       cscale ops (dft ops (2 ^ m) (root ops tw (Nat.max (Nat.log2 (length (R s))) m) m true) (vec ops v) k)
+                  (fdiv ops (fone ops) (of_Z ops (Z.of_nat (2 ^ m))))) /\
+  (forall (s' : st (F := F)) m (v : list (F * F)), reach ops tw s' -> length (R s') <= 2 ^ Kmax -> m <= Kmax ->
+     length v = 2 ^ m -> snd (fft_internal ops tw s' (snd (fft_internal ops tw s v false)) true) = v) /\
+  (forall a b, a <> [] -> b <> [] -> next_pow2 2 (length a + length b - 1) <= 2 ^ Kmax ->
+     (forall l, l < length a + length b - 1 -> inr (conv_coef a b l)) ->
+     snd (multiply ops tw s a b) = conv a b) /\
+  (forall a b j res, a <> [] -> b <> [] -> S j <= Kmax -> length a + length b - 1 <= 2 ^ S j ->
+     (forall l, l < length a + length b - 1 -> inr (conv_coef a b l)) -> inr 0%Z ->
+     snd (inv_prod_into ops tw s a b (2 ^ S j) res) =
+     zip_acc Z.add res (conv a b ++ repeat 0%Z (2 ^ S j - (length a + length b - 1)))).
+Proof. exact exact_algebra_all. Qed.
